@@ -8,7 +8,7 @@
   OBLIGATIONS (audited by `check` with `#print axioms`):
     built_event, emit_iff, emit_log, emit_exactly_once, hook_emit_iff, hook_emit_event_iff,
     deliver_exactly_once, deliver_at_most_once, deliver_all, path_maps_only,
-    eval_and, eval_or, eval_opt, eval_empty, eval_always, calls_and, calls_or,
+    eval_and, eval_or, eval_opt, eval_empty, eval_always, calls_and, calls_or, calls_same_event,
     eval_layers, run_layers, flush_layers, evalTrace_strip, run_strip, flush_strip,
     call_site_overrides, no_call_site_uses_runtime_filter, runtime_emit_is_emitter_impl,
     direct_bypass, direct_is_unfiltered_emit, flush_and, flush_defers, flush_spec
@@ -260,6 +260,38 @@ theorem calls_and (a b : Flt) (x : Evt) :
 theorem calls_or (a b : Flt) (x : Evt) :
     (Flt.or a b).calls ρ x = a.calls ρ x ++ (if a.eval ρ x then [] else b.calls ρ x) := by
   simp only [Flt.calls, Flt.eval, Flt.evalTrace]; split <;> simp_all
+
+/-- Every leaf of a filter tree is asked about exactly the event the tree was asked about — so, by `emit_log`,
+    every leaf of the effective filter sees the fully built event (own then ambient properties, own-or-clock
+    extent), never the caller's. -/
+theorem calls_same_event (f : Flt) (x : Evt) : ∀ o ∈ f.calls ρ x, ∃ i, o = Obs.flt i x := by
+  induction f using Flt.induct with
+  | leaf i => intro o ho; exact ⟨i, by simpa [Flt.calls, Flt.evalTrace] using ho⟩
+  | and a b iha ihb =>
+    intro o ho
+    rw [calls_and] at ho
+    rcases List.mem_append.mp ho with h | h
+    · exact iha o h
+    · split at h
+      · exact ihb o h
+      · simp at h
+  | or a b iha ihb =>
+    intro o ho
+    rw [calls_or] at ho
+    rcases List.mem_append.mp ho with h | h
+    · exact iha o h
+    · split at h
+      · simp at h
+      · exact ihb o h
+  | always => intro o ho; simp [Flt.calls, Flt.evalTrace] at ho
+  | empty => intro o ho; simp [Flt.calls, Flt.evalTrace] at ho
+  | optNone => intro o ho; simp [Flt.calls, Flt.evalTrace] at ho
+  | optSome f ih => exact ih
+  | ref f ih => exact ih
+  | boxed f ih => exact ih
+  | shared f ih => exact ih
+  | erased f ih => exact ih
+  | internal f ih => exact ih
 
 /-! ## The transparent layers (`&T`, `Box<T>`, `Arc<T>`, `dyn Erased…`, `AssertInternal<T>`) -/
 
